@@ -8,7 +8,7 @@ from vf.runner import hyp_run, run_cases, guard, fail, exc_failure
 RULE = ("cells from 7 families (triclinic angles constructed inside the positive-volume region, a,b,c in "
         "[2,30] A, angles in [55,125] deg) x centring P/A/B/C/I/F/R x d* limit (bounded so the brute-force "
         "box holds <= 2e4 (quick) / 1.2e5 (thorough) points) x ring tolerance x a second d* limit on the same "
-        "object (cache histories of gethkls and of makerings big/small/big); limits placed exactly on a reflection's d*; oracle = brute-force box enumeration with the harness's own reciprocal metric "
+        "object (cache histories of gethkls and of makerings big/small/big); limits placed exactly on a reflection's d*; ring tolerance changed between two makerings calls with the same limit; indexer.assigntorings on peaks placed on / near the reflections of pseudo-symmetric cells whose rings lie 0.4-6 tolerances apart; oracle = brute-force box enumeration with the harness's own reciprocal metric "
         "and International-Tables centring rules; non-trivial = at least one non-right angle or centring != P, "
         "and >= 10 reflections; distinct = hash of (cell, centring, limits)")
 ASSUMPTIONS = ["box bound |h_i| <= dsmax*|a_i| + 1 is complete (Cauchy-Schwarz: h_i = g.a_i)",
@@ -211,20 +211,23 @@ def check(case, rec=None):
     if ok:
         big, small = max(ds1, ds2), min(ds1, ds2)
         mid = 0.5 * (big + small)
-        for step, lim in enumerate((big, small, big)):
-            ok, e = guard(u3.makerings, lim, tol)
+        tol2 = tol * 5.0 if tol <= 2e-3 else tol * 0.2
+        # same limit again with another ring tolerance, and back (an indexer whose ds_tol is edited between calls)
+        for step, (lim, tl) in enumerate(((big, tol), (small, tol), (big, tol), (big, tol2), (big, tol))):
+            ok, e = guard(u3.makerings, lim, tl)
             if not ok:
                 fails.append(exc_failure("makerings(history step %d)" % step, e))
                 break
-            f, n, nb = check_list(u3.peaks, cell, sym, lim + tol, "makerings history step %d" % step)
+            f, n, nb = check_list(u3.peaks, cell, sym, lim + tl, "makerings history step %d" % step)
             fails += f
-            fails += check_rings(u3, tol, "makerings history step %d" % step)
+            fails += check_rings(u3, tl, "makerings history step %d" % step)
             uf = unitcell.unitcell(cell, sym)
-            uf.makerings(lim, tol)
+            uf.makerings(lim, tl)
             if list(uf.ringds) != list(u3.ringds):
-                fails.append(fail("history", "rings after makerings(%g), makerings(%g), ... differ from a fresh "
-                                  "object at step %d (%d vs %d rings)" % (big, small, step, len(u3.ringds),
-                                                                          len(uf.ringds)), call="makerings"))
+                fails.append(fail("history", "rings after makerings(%g,%g), makerings(%g,%g), (%g,%g), (%g,%g), ... "
+                                  "differ from a fresh object at step %d (%d vs %d rings)" %
+                                  (big, tol, small, tol, big, tol, big, tol2, step, len(u3.ringds), len(uf.ringds)),
+                                  call="makerings"))
             if fails:
                 break
         if not fails:
@@ -253,13 +256,102 @@ REGRESSION = [   # pinned cases of the defects fixed in the repository (D1, D2)
 ]
 
 
+# ------------------------------------------------------------------ peaks assigned to the rings (indexer.assigntorings)
+
+@st.composite
+def ringcases(draw):
+    base = draw(st.sampled_from(["cubic", "tetragonal", "hexagonal", "orthorhombic", "generic"]))
+    a = draw(st.floats(3.0, 8.0, allow_nan=False, width=64))
+    r = draw(st.sampled_from([0.0, 3e-4, 1e-3, 3e-3, 5e-3]))        # pseudo-symmetry: relative distortion of the axes
+    f = draw(st.sampled_from([0.4, 0.7, 1.2, 1.7, 2.5, 6.0]))        # ring tolerance in units of the d* splitting
+    sym = draw(st.sampled_from(["P", "P", "I", "F"]))
+    seed = draw(st.integers(0, 2 ** 31 - 1))
+    return dict(base=base, a=a, r=r, f=f, sym=sym, seed=seed)
+
+
+def check_ringassign(case, rec=None):
+    """Every simulated peak sits exactly on, or a fraction of the tolerance away from, a reflection of the list.  A
+    peak must go to a ring whose d* is within ds_tol, must not stay unassigned when such a ring exists, and a peak on a
+    reflection whose own ring is strictly the nearest one must go to that ring; ring totals are the histogram."""
+    from ImageD11 import unitcell, indexing
+    rng = np.random.RandomState(case["seed"] % (2 ** 32))
+    a, r = case["a"], case["r"]
+    cell = {"cubic": [a, a * (1 - r), a * (1 - 2 * r), 90., 90., 90.],
+            "tetragonal": [a, a * (1 + r), a * 1.3, 90., 90., 90.],
+            "hexagonal": [a, a * (1 - r), a * 1.6, 90., 90., 120. + 50 * r],
+            "orthorhombic": [a, a * 1.1, a * 1.25 * (1 + r), 90., 90. - 30 * r, 90.],
+            "generic": [a, a * 1.13, a * 0.87, 85., 97., 104.]}[case["base"]]
+    dstar = 1.0 / a
+    ds_tol = max(case["f"] * max(r, 2e-4) * dstar, 1e-5)
+    limit = 3.2 * dstar
+    ok, uc = guard(unitcell.unitcell, cell, case["sym"])
+    if not ok:
+        return [exc_failure("unitcell()", uc)]
+    uc.makerings(limit, ds_tol)
+    refl = [(d, tuple(h)) for d in uc.ringds for h in uc.ringhkls[d]]
+    if not refl:
+        return []
+    B = gens.busing_levy_B(cell)
+    dsr = np.array([np.linalg.norm(B @ np.array(h, float)) for _, h in refl])
+    own = np.array([uc.ringds.index(d) for d, _ in refl])
+    off = rng.choice([0.0, 0.0, 0.3, -0.3, 0.9, -0.9, 1.3], len(refl)) * ds_tol
+    dsp = np.concatenate([dsr + off, rng.uniform(0.3 * dstar, limit, 20)])
+    own = np.concatenate([np.where(off == 0, own, -2), np.full(20, -2)])
+    keep = dsp < limit
+    dsp, own = dsp[keep], own[keep]
+    if len(dsp) == 0:
+        return []
+    dirs = rng.standard_normal((len(dsp), 3))
+    gv = dirs / np.linalg.norm(dirs, axis=1)[:, None] * dsp[:, None]
+    uc2 = unitcell.unitcell(cell, case["sym"])
+    ok, ind = guard(indexing.indexer, unitcell=uc2, gv=gv, ds_tol=ds_tol, wavelength=0.3)
+    if not ok:
+        return [exc_failure("indexer()", ind)]
+    indexing.loglevel = 10
+    ok, e = guard(ind.assigntorings)
+    if not ok:
+        return [exc_failure("assigntorings", e)]
+    fails = []
+    reps = np.array(ind.unitcell.ringds, float)
+    ra = np.asarray(ind.ra)
+    dsv = np.sqrt((gv * gv).sum(axis=1))
+    D = np.abs(dsv[:, None] - reps[None, :])
+    where = "cell %s %s ds_tol %.3g" % (np.round(cell, 5).tolist(), case["sym"], ds_tol)
+    asg = ra >= 0
+    if asg.any() and (D[asg, ra[asg]] >= ds_tol * (1 + 1e-9)).any():
+        fails.append(fail("ringassign", "assigntorings: a peak is assigned to a ring further than ds_tol away; " + where,
+                          what="sound"))
+    if ((~asg) & (D.min(axis=1) < ds_tol * (1 - 1e-9))).any():
+        fails.append(fail("ringassign", "assigntorings: a peak within ds_tol of a ring is left unassigned; " + where,
+                          what="complete"))
+    srt = np.sort(D, axis=1)
+    strict = (srt[:, 0] < ds_tol * (1 - 1e-9)) & ((srt.shape[1] == 1) | (srt[:, min(1, srt.shape[1] - 1)] - srt[:, 0] > 1e-9))
+    mine = (own >= 0) & strict & (np.argmin(D, axis=1) == np.where(own >= 0, own, 0))
+    if len(reps) == len(uc.ringds) and (ra[mine] != own[mine]).any():
+        k = int(np.nonzero(mine & (ra != own))[0][0])
+        fails.append(fail("ringassign", "assigntorings: a peak exactly on a reflection (d* %.6f) of ring %d, whose ring "
+                          "is the nearest one, is counted in ring %d; %s" % (dsv[k], own[k], ra[k], where), what="own"))
+    hist = np.bincount(ra[asg], minlength=len(reps))
+    if not np.array_equal(np.asarray(ind.na), hist):
+        fails.append(fail("ringassign", "assigntorings: ring totals differ from the histogram of the assignments; " +
+                          where, what="totals"))
+    if rec is not None:
+        gaps = np.diff(reps)
+        close = bool(len(gaps) and (gaps < 2 * ds_tol).any())
+        rec.case(case, close, ["ringassign:" + case["base"]] + (["rings_closer_than_2tol"] if close else []))
+    return fails
+
+
 def run_shard(rec):
     quick = rec.tier == "quick"
     if rec.shard == 0:
         run_cases(rec, "regression", REGRESSION, lambda c: check(c, rec))
     hyp_run(rec, "cells", cases(20000 if quick else 50000), lambda c: check(c, rec),
             max_examples=130 if quick else 450)
+    hyp_run(rec, "ringassign", ringcases(), lambda c: check_ringassign(c, rec), max_examples=60 if quick else 600)
 
 
 def replay(sub, case, rec):
+    if sub == "ringassign":
+        return check_ringassign(case, rec)
     return check(case, rec)
